@@ -95,4 +95,48 @@ def runLocal (g : Pipe) (fails : Nat → Bool) (ord : List Nat) : List Nat × Bo
   let r := runLoop g fails ord ord ([], [])
   (r.2, r.2.any fails)
 
+/-! ## how a job's dependency set is built (`job.py`)
+
+`Job.depends_on`, `Job._interpolate_command` (resources mentioned in a bash command) and `PythonJob.call`
+(`handle_args(args); handle_args(kwargs)` — resources anywhere in the positional **and** keyword arguments, nested in
+lists, tuples and dicts) add to `j._dependencies`. -/
+
+/-- an argument of `PythonJob.call` as `handle_args` sees it -/
+inductive Arg where
+  | res (src : Option Nat)    -- a `Resource`; `r.source()` is a job of the batch or `None` (an input file)
+  | seq (items : List Arg)    -- `list` or `tuple`: every element is scanned
+  | dict (vals : List Arg)    -- `dict`: the `.values()` are scanned (keys are not)
+  | value                     -- anything else is ignored
+
+mutual
+/-- jobs whose resources `handle_args(a)` passes to `handle_arg` -/
+def Arg.sources : Arg → List Nat
+  | .res (some s) => [s]
+  | .res none => []
+  | .seq l => sourcesList l
+  | .dict l => sourcesList l
+  | .value => []
+def sourcesList : List Arg → List Nat
+  | [] => []
+  | a :: t => a.sources ++ sourcesList t
+end
+
+/-- `handle_arg`: `if source != self … if source is not None: self._dependencies.add(source)` -/
+def addDeps (self : Nat) (srcs : List Nat) : List Nat := srcs.filter (· ≠ self)
+
+/-- dependencies added by one `call(f, *args, **kwargs)`: `handle_args(args); handle_args(kwargs)` (the result
+resource handled last has the job itself as source and adds nothing) -/
+def callDeps (self : Nat) (args : List Arg) (kwargs : List (String × Arg)) : List Nat :=
+  addDeps self (sourcesList args ++ sourcesList (kwargs.map (·.2)))
+
+/-- what a job's statements contribute -/
+structure JobDecl where
+  explicit : List Nat                               -- `depends_on(*jobs)`: added as they are (also the job itself)
+  cmdSources : List Nat                             -- sources of the resources mentioned in its bash commands
+  calls : List (List Arg × List (String × Arg))     -- its `call`s
+
+/-- the members of `j._dependencies` -/
+def jobDeps (self : Nat) (d : JobDecl) : List Nat :=
+  d.explicit ++ addDeps self d.cmdSources ++ d.calls.flatMap fun c => callDeps self c.1 c.2
+
 end HailVerif.BatchOrder
